@@ -1004,6 +1004,9 @@ impl WalSegment {
             .open(path)
             .wrap_err_with(|| format!("failed to create WAL segment at {:?}", path))?;
 
+        #[cfg(kahflane_turdb_verif)]
+        crate::verif::file_event("created", path);
+
         Ok(Self {
             writer: std::io::BufWriter::with_capacity(WAL_BUFFER_SIZE, file),
             sequence,
@@ -1045,6 +1048,8 @@ impl WalSegment {
         file.seek(SeekFrom::Start(len))
             .wrap_err("failed to position WAL segment for appending")?;
         self.offset = len;
+        #[cfg(kahflane_turdb_verif)]
+        crate::verif::file_event("truncated", &self.path);
         Ok(())
     }
 
@@ -1086,9 +1091,14 @@ impl WalSegment {
                 .get_mut()
                 .sync_data()
                 .wrap_err("failed to sync WAL frame to disk")?;
+            #[cfg(kahflane_turdb_verif)]
+            crate::verif::file_event("fsync", &self.path);
         }
 
         self.offset += (WAL_FRAME_HEADER_SIZE + PAGE_SIZE) as u64;
+
+        #[cfg(kahflane_turdb_verif)]
+        crate::verif::point("wal.frame_written", &[{ header.page_no } as i64, sync as i64]);
 
         Ok(())
     }
@@ -1098,6 +1108,19 @@ impl WalSegment {
         self.writer
             .flush()
             .wrap_err("failed to flush WAL buffer")?;
+        #[cfg(kahflane_turdb_verif)]
+        {
+            let r = self
+                .writer
+                .get_mut()
+                .sync_data()
+                .wrap_err("failed to sync WAL segment to disk");
+            if r.is_ok() {
+                crate::verif::file_event("fsync", &self.path);
+            }
+            return r;
+        }
+        #[cfg(not(kahflane_turdb_verif))]
         self.writer
             .get_mut()
             .sync_data()
